@@ -335,9 +335,14 @@ def nesting_profile(f, builtin=False):
                     and not (builtin and is_plumbing(c)):
                 prof.setdefault(CANON_CALLEE.get(c, c), []).append(d)
         elif k in ('bin', 'assignop', 'un') and n.get('f'):
-            prof.setdefault((n.get('f') or '') + ':' + str(n.get('op')), []).append(d)
-        elif builtin and k in ('bin', 'assignop'):
-            prof.setdefault('builtin:' + str(n.get('op')) + ('=' if k == 'assignop' and not str(n.get('op')).endswith('=') else ''), []).append(d)
+            fo, op = (n.get('f') or ''), str(n.get('op'))
+            if fo.endswith('PartialEq::ne') or op == '!=':
+                fo, op = fo.replace('PartialEq::ne', 'PartialEq::eq'), '=='
+            prof.setdefault(fo + ':' + op, []).append(d)
+        elif builtin and k in ('bin', 'assignop') and n.get('op') not in ('&&', '||'):
+            # `&&` / `||` are control flow in disguise (`a && b` <-> `if !a { return .. } b`); `==` and `!=` are one comparison seen from its two branches
+            op = '==' if n.get('op') == '!=' else str(n.get('op'))
+            prof.setdefault('builtin:' + op + ('=' if k == 'assignop' and not op.endswith('=') else ''), []).append(d)
         elif builtin and k == 'un' and n.get('op') in ('!', '-'):
             prof.setdefault('builtin:unary' + str(n.get('op')), []).append(d)
         if builtin:
@@ -424,6 +429,10 @@ def use_profile(f):
             return 'literal'
         if k == 'path':
             return 'const ' + short(norm_(e.get('p') or ''))
+        if k == 'call' and e.get('dk') == 'Ctor' and (e.get('f') or '').endswith(('Result::Ok', 'Option::Some')) and len(e.get('args', [])) == 1:
+            return origin(e['args'][0], depth)          # Ok(x)? / Some(x): the wrapped value
+        if k == 'iret' and isinstance(e.get('e'), dict):
+            return origin(e['e'], depth)
         if k in ('call', 'mcall'):
             c = callee(e)
             return ('result of ' + short(c)) if c else 'expr'
@@ -613,14 +622,14 @@ def restrict_profile(f):
             prof['[range]'] += 1
         elif k in ('continue', 'break'):
             prof[k] += 1
+        elif k == 'call' and n.get('dk') == 'Ctor' and (n.get('f') or '').endswith('core::result::Result::Err'):
+            prof['error exit'] += 1          # `return Err(e)`, `Err(e)?`, an arm whose value is `Err(e)`: a rejection, however it is spelled
         elif k == 'ret':
             e = peel(n['e']) if isinstance(n.get('e'), dict) else None
             ok_ctor = e is not None and e.get('k') == 'call' and ((e.get('f') or '') + (peel(e.get('fe', {})).get('p') or '') if isinstance(e.get('fe'), dict) else (e.get('f') or '')).endswith('Result::Ok')
             unit = e is None or (e.get('k') == 'tup' and not e.get('es'))
             if ok_ctor or unit:
                 prof['early success return'] += 1
-            elif e is not None and e.get('k') == 'call' and (e.get('f') or '').endswith('Result::Err'):
-                prof['early error return'] += 1
     return dict(prof)
 
 
@@ -707,7 +716,7 @@ def eval_restrict(ck, w, prop, rule):
     ref = reference_fn_ids() or frozenset()
     ck.rule(rule, 'iteration domains are not narrowed (rules/restrict.json): no function of ' + (', '.join(OPS_SCOPES[prop][1]) if prop in OPS_SCOPES else 'the curves crate in the scope of this property') + ' gains a construct that narrows an '
                   'iteration or a collection — a restricting iterator adaptor (filter, skip, take, step_by, take_while, filter_map, find, position, nth, split_*), '
-                  'a truncation (truncate, pop, retain, dedup), a sub-slice by a range, a `continue`, a `break`, an early `return Ok(..)` / `return;` or a new `return Err(..)` (a rejection the reference tree does not have: the checker cannot tell a '
+                  'a truncation (truncate, pop, retain, dedup), a sub-slice by a range, a `continue`, a `break`, an early `return Ok(..)` / `return;` or a new `Err(..)` (a rejection the reference tree does not have, whether returned, propagated or the value of an arm: the checker cannot tell a '
                   'redundant rejection from an over-strict one) — beyond those it has on the reference tree.  '
                   'Skipping an element of a protocol fold, of a per-element check or of a table is how one side of a protocol, or one element of a batch, '
                   'silently falls out of what is enforced.  Functions that are new are expanded into their callers first; removing a restriction never fires.')
